@@ -1680,6 +1680,17 @@ def _mutate_invalid(rng, lay):
     """break one documented structural rule at one node (in place); returns a description or None"""
     nodes = _nodes(lay)
     rng.shuffle(nodes)
+    if rng.random() < 0.06:
+        # a categorical array whose categories are themselves an invalid list array (the last offset lies beyond the
+        # content, by a little or by a lot): the check has to report it, not to read the categories first
+        for p_ in nodes:
+            c_ = getattr(p_, "content", None)
+            if isinstance(c_, L.LO) and len(c_.offsets) >= 2 and not isinstance(p_, (L.IX, L.IO)):
+                c_.offsets[-1] = c_.content.length() + rng.choice([1, 3, 1000, 10 ** 8])
+                n_ = len(c_.offsets) - 1
+                wrap = L.IX("64", list(range(n_)), c_) if rng.random() < 0.6 else L.IO("64", list(range(n_)), c_)
+                p_.content = wrap.with_params({"__array__": '"categorical"'})
+                return "categorical array over categories whose last offset lies beyond their content"
     if rng.random() < 0.15:
         # malformed string / categorical parameters
         strings = [nd for nd in nodes if L.isstringparam(nd) and isinstance(nd.content, L.NP)]
